@@ -87,9 +87,18 @@ def run(res, drv, tier, seed):
     n = 30 if tier == 'quick' else 250
     reqs, ctx = [], []
     for ci in range(n):
-        prob = estgen.gen_problem(r)
-        engine = r.choice(['MD', 'MD', 'RDA', 'IG'])
-        iters = r.choice([1, 2, 7, 100])
+        directed = ci < (9 if tier == 'quick' else 60)
+        if directed:
+            # tree-shaped pairwise measurement sets over shuffled attributes (clique order matters to mle), every third one with structural
+            # zeros that remove a whole value of a separator attribute (-inf slices in the messages)
+            prob = estgen.gen_tree_problem(r, kill_value=(ci % 3 == 2))
+            engine = ['MD', 'MD', 'IG'][(ci // 3) % 3] if ci % 3 == 2 else ['RDA', 'IG'][ci % 2]
+            iters = [1, 7, 2][ci % 3]
+            res.count('directed:tree' + ('+killed-separator-value' if ci % 3 == 2 else ''))
+        else:
+            prob = estgen.gen_problem(r)
+            engine = r.choice(['MD', 'MD', 'RDA', 'IG'])
+            iters = r.choice([1, 2, 7, 100])
         total = r.choice([None, float(prob['N']), 37.5])
         canon = dict(estgen.canon_problem(prob), engine=engine, iters=iters, total=total)
         eng = estgen.make_engine(prob['dom'], prob['zeros'], iters=iters)
